@@ -266,6 +266,29 @@ def run(ctx):
                 envs = [dict(u=u, f=f) for u in ("u1", 7) for f in fvals]
                 tenvs = [dict(u=u, f=f) for u in ("u1", 7) for f in tvals]
                 compare(ctx, im, text, twin, envs, tenvs, payload, pos, sent, with_black=not ctx.quick() or idx % 4 == 0)
+        # comments are source text too: nothing written in a comment may reach the generated program (docstrings, headers
+        # and log messages that quote the source are where it would)
+        cpos = {
+            "block-comment-header": lambda P: f'/* {P} */ def p {{ splitters: u if f == "a" {{ return "T" weighted 1, "U" weighted 1 }} else {{ return "F" weighted 1 }} }}',
+            "block-comment-inside": lambda P: f'def p {{ splitters: u /* {P} */ if f == "a" {{ return "T" weighted 1, /* {P} */ "U" weighted 1 }} else {{ return "F" weighted 1 }} }}',
+            "line-comment": lambda P: f'def p {{ splitters: u // {P}\n if f == "a" {{ return "T" weighted 1, "U" weighted 1 }} // {P}\n else {{ return "F" weighted 1 }} }} // {P}',
+        }
+        cpayloads = [p for p in payloads[:ntempl] if "PWNED" in p or any(ch in p for ch in "'\"\\")] + [
+            '"""', "'''", '"""; PWNED(); r"""', '"""\\nPWNED()\\n"""', "\\", "\\\"\"\"", '""" + str(PWNED()) + """', "{PWNED()}", "%(PWNED)s", "\x00", "\x0c PWNED()",
+            "\r PWNED()", "# coding: latin-1", "type: ignore", "fmt: off", "noqa"]
+        for ci, payload in enumerate(cpayloads):
+            for pos, tmpl in cpos.items():
+                idx += 1
+                if not ctx.mine(idx) or (ctx.quick() and (ci + len(pos)) % 3):
+                    continue
+                if "*/" in payload or "\n" in payload or (pos != "line-comment" and "/*" in payload):
+                    continue
+                text, twin = tmpl(payload), tmpl("harmless note")
+                if ref_parse(text)[0] != "ok":
+                    ctx.count("harness/reference-did-not-accept")
+                    continue
+                envs = [dict(u=u, f=f) for u in ("u1", 7) for f in ("a", "other", payload)]
+                compare(ctx, im, text, twin, envs, envs, payload, "comment:" + pos, sent, with_black=not ctx.quick() or idx % 4 == 0)
         for pi, (pa, pb) in enumerate(PAIRS):
             if not (expressible(pa) and expressible(pb)):
                 continue
